@@ -105,4 +105,20 @@ var plans = map[string]Plan{
 			{Name: "server-client", Pkg: "./checks/c12", Run: "^TestServerClient$", Rapid: true, Shards: [2]int{2, 8}, Checks: [2]int{3000, 25000}},
 		},
 	},
+	"C13": {
+		Level: "exploration",
+		Rule: "cases are (decoding API, message <=96 bytes): a complete grid placing 2^16, 2^20, 2^24, 2^28, 2^31-1 at every position where the format carries a length or count (binary length; list/set count x 11 element kinds; map count x 8 key/value kinds; nested positions; top-level containers; strict and legacy envelope name length; frame length; the same bodies behind an envelope) x every API; every container/binary field of the repository's generated plugin-API types x {FromWire(Decode), Decode(stream)}; plus rapid-generated mutated short messages. " +
+			"Each call runs in a child process (RLIMIT_AS 6 GiB); oracle: runtime.MemStats.TotalAlloc delta <= 24 MiB + 64*N, CPU <= 2 s (re-measured alone twice), child not killed. " +
+			"Non-trivial: the message carries a declared length >= 2^16 or is a mutation. Distinct: SHA-256 of (API, message).",
+		Assumptions: []string{
+			"TotalAlloc delta around one call in an otherwise idle child is the allocation caused by the call",
+			"24 MiB + 64 N is a generous reading of 'a fixed constant plus a small multiple of N' (covers the documented 1 MiB binary threshold and 10 MiB frame fast path)",
+			"the streaming body walker used for ReadRequest / ReadEnvelopeBegin (internal/bridge) allocates only per element actually read",
+		},
+		Units: []Unit{
+			{Name: "grid", Pkg: "./checks/c13", Run: "^TestGrid$", Shards: [2]int{8, 8}, Weight: 2},
+			{Name: "gen-grid", Pkg: "./checks/c13", Run: "^TestGenGrid$", Shards: [2]int{4, 4}, Weight: 2},
+			{Name: "mutated", Pkg: "./checks/c13", Run: "^TestMutated$", Rapid: true, Shards: [2]int{4, 16}, Checks: [2]int{600, 4000}, Weight: 2},
+		},
+	},
 }
